@@ -44,7 +44,7 @@ def work_grid(bins, tz, timestamps):
     return dict(n=n, bad=bad, days=len(days))
 
 
-_NUM3 = re.compile(r"^(\d+)\.(\d+)\.(\d+)(?:[-.+]|$)")
+_NUM3 = re.compile(r"^(?:\d+!)?(\d+)\.(\d+)\.(\d+)(?:[-.+a-z]|$)")      # an epoch (`2!`) may precede the date in PEP 440 output
 
 
 def work_cli(bins, tz, cases):
@@ -70,6 +70,8 @@ def work_cli(bins, tz, cases):
                         argv += [flag, str(val)]
                 if dirty:
                     argv += ["--dirty"]
+                if t % 7 == 3:
+                    argv += ["--epoch", "2"]
                 r = core.run_zerv(bins, argv, env=env)
             elif via == "both":
                 # commit time and tag time both known: the commit time decides ("or, failing that, tag time")
@@ -92,7 +94,10 @@ def work_cli(bins, tz, cases):
                     preset, r["out"].strip(), t, f["y"], f["m"], f["d"], tz, via, STATES[c[5] if len(c) > 5 else 0]), c))
         elif kind == "ts":
             _, pat, t, via = c
-            schema = '(core:[var(Major)], extra_core:[], build:[str("x"), var(ts("%s")), str("y")])' % pat
+            where = t % 3
+            schema = ('(core:[var(Major)], extra_core:[], build:[str("x"), var(ts("%s")), str("y")])',
+                      '(core:[var(Major), var(Minor), var(Patch)], extra_core:[str("x"), var(ts("%s")), str("y")], build:[])',
+                      '(core:[var(Major), var(Minor), var(Patch), str("x"), var(ts("%s")), str("y")], extra_core:[], build:[])')[where] % pat
             if via == "bumped":
                 argv = ["version", "--source", "none", "--tag-version", "3.0.0", "--bumped-timestamp", str(t), "--schema-ron", schema]
                 r = core.run_zerv(bins, argv, env=env)
@@ -108,7 +113,8 @@ def work_cli(bins, tz, cases):
                 bad.append(("ts-pattern-refused", "documented pattern %r refused: %s" % (pat, r["err"][:200]), c))
                 continue
             exp = str(int(cal.resolve(pat, t)))     # version rendering strips leading zeros by design
-            want = ("3.0.0+x.%s.y" if via == "bumped" else "1.0.0+x.%s.y") % exp
+            base = "3.0.0" if via == "bumped" else ("1.0.0" if where == 0 else "1.0.7")
+            want = (base + "+x.%s.y" if where == 0 else base + "-x.%s.y") % exp
             if r["out"].strip() != want:
                 bad.append(("ts-component-differs", "ts(%r) at t=%d printed %r, expected %r (TZ=%s, via %s)" % (pat, t, r["out"].strip(), want, tz, via), c))
     return dict(n=n, bad=bad)
